@@ -2,7 +2,7 @@
 SPECIFICATION Spec
 CONSTANTS
     N = 3
-    EdgeKinds = {"h", "w", "m", "c"}
+    EdgeKinds = {"h", "w", "m", "c", "b"}
     MaxEdges = 4
     DangKinds = {}
     Emit = TRUE
